@@ -1285,6 +1285,8 @@ func c05Threshold(c *core.Ctx) {
 			msg  string
 		}{{"less", 0, 1, -1, "Compare does not return -1 when the receiver is smaller"}, {"greater", 1, 0, 1, "Compare does not return 1 when the receiver is greater"}, {"equal", 1, 1, 0, "Compare does not return 0 when both are equal"}} {
 			ev := &core.AbsEval{Info: info}
+			// conditions on the exponents are not evaluated: what their branches assign is forgotten
+			ev.UnknownIf = func(*ast.IfStmt) bool { return true }
 			ev.Atom = func(e ast.Expr) (any, bool) {
 				t := info.TypeOf(e)
 				if t == nil {
